@@ -757,6 +757,14 @@ def step (w : World) (line : String) : World × String :=
         ({ w with coords := (sid, s') :: w.coords.filter (·.1 != sid) }, CoordTok.showSys s')
       | none => (w, "no-store")
     | _, _, _ => (w, "bad-op")
+  -- the current state (a step that the protocol model does not see, e.g. a report without news)
+  | ["csnap", sid, _fix] =>
+    match parseNat? sid with
+    | some sid =>
+      match w.coords.lookup sid with
+      | some s => (w, CoordTok.showSys s)
+      | none => (w, "no-store")
+    | none => (w, "bad-op")
   -- specifications of C11 evaluated on the model state
   | ["cspec", sid] =>
     match parseNat? sid with
@@ -1140,6 +1148,18 @@ def step (w : World) (line : String) : World × String :=
         let n := (theirs.filter fun (a, ts) =>
           (t.records.filter (fun e => e.ns == ns && e.author == a)).all (fun e => decide (ts > e.ts))).length
         (w, "news " ++ toString n)
+      | none => (w, "no-store")
+    | _, _, _ => (w, "bad-op")
+  -- specification of the reaction to a sync report (C13 at the engine): dial exactly on news, i.e.
+  -- when some reported author is unknown or reported with a timestamp newer than all we hold
+  | ["snewsdial", sid, ns, heads] =>
+    match parseNat? sid, Bytes.ofHex ns, parseHeads? heads with
+    | some sid, some ns, some theirs =>
+      match w.getT sid with
+      | some t =>
+        let n := (theirs.filter fun (a, ts) =>
+          (t.records.filter (fun e => e.ns == ns && e.author == a)).all (fun e => decide (ts > e.ts))).length
+        (w, if n > 0 then "dial" else "quiet")
       | none => (w, "no-store")
     | _, _, _ => (w, "bad-op")
   | ["topen", sid, ns] =>
